@@ -275,6 +275,7 @@ func (d *Document) addFootnoteOrEndnote(text string, noteText string, noteType F
 		manager.nextEndnoteID++
 	}
 
+	verifPoint("footnote.id")
 	// 创建包含脚注引用的段落
 	paragraph := &Paragraph{}
 
